@@ -62,6 +62,35 @@ pub fn run(cfg: &Cfg, rep: &mut Report) {
         }
         bt.run(&m, rep);
     }
+    // directed: all case spellings of the dangerous schemes in every destination position
+    let mut bt = Batch::new();
+    for (i, d) in scheme_case_docs().into_iter().enumerate() {
+        let mut o = Opts::default();
+        o.set("wikilinks_title_after_pipe", true).set("autolink", i % 2 == 0);
+        rep.count("scheme-case-documents");
+        push_case(&mut bt, rep, o, Src::Doc(d), "scheme-case");
+        if bt.len() > 3000 {
+            let b = std::mem::replace(&mut bt, Batch::new());
+            b.run(&m, rep);
+        }
+    }
+    bt.run(&m, rep);
+}
+
+/// Every letter-case spelling of the four dangerous schemes (2^10 + 2^8 + 2^4 + 2^4 masks), each as the
+/// destination of a link, an image, an angle autolink, a wikilink and a reference definition.
+fn scheme_case_docs() -> Vec<String> {
+    let mut v = vec![];
+    for (scheme, rest) in [("javascript", ":alert(1)"), ("vbscript", ":msgbox(1)"), ("file", ":///etc/passwd"), ("data", ":text/html,x")] {
+        let letters: Vec<char> = scheme.chars().collect();
+        for mask in 0u32..(1 << letters.len()) {
+            let sp: String = letters.iter().enumerate().map(|(i, c)| if mask >> i & 1 == 1 { c.to_ascii_uppercase() } else { *c }).collect();
+            let u = format!("{}{}", sp, rest);
+            // the five positions in one document: one render covers them all
+            v.push(format!("[x]({u}) ![y]({u}) <{u}> [[{u}|t]] [r]\n\n[r]: {u}\n", u = u));
+        }
+    }
+    v
 }
 
 pub fn replay(kind: &str, input: &str) -> Result<Option<String>, String> {
